@@ -172,7 +172,7 @@ def flag_set(body, op, depth=0):
     out = set()
     for a in ats:
         if a.kind == "const" and "LockFlags::" in str(a.what):
-            out.add(str(a.what).rsplit("::", 1)[1])
+            out.add(str(a.what).rsplit("::", 1)[-1])
         elif a.kind == "call" and re.search(r"BitOr(<[^>]*>)?>::bitor$|LockFlags::union$", a.what):
             for arg in a.extra["args"][:2]:
                 sub = flag_set(body, arg, depth + 1)
